@@ -7,7 +7,7 @@ PID = "C20"
 MODULE, PKG, BIN = "cesium", "./verifh/c20", "c20"
 COQ_IMPORTS = "From Synnax Require Import Common.Base Cesium.Relay Monitors.Mon_C20."
 CASE_TYPE = "case_t"
-COUNTS = {"quick": 700, "thorough": 4000}
+COUNTS = {"quick": 700, "thorough": 3000}
 SHARD = 20
 RACE = True
 PROCS = 4
